@@ -389,6 +389,13 @@ fn big_cases() -> Vec<(String, TVal)> {
     for n in [32_767usize, 32_768, 32_769, 40_001] {
         bigs.push((format!("map<binary,i8> x {}", n), TVal::Map(TT::Binary, TT::I8, (0..n).map(|i| (TVal::Binary(vec![(i % 251) as u8]), TVal::I8(1))).collect())));
     }
+    // one payload around and beyond 64 KiB (where a reader that grows its buffer starts growing it)
+    for n in [65_535usize, 65_536, 65_537, 131_073, 200_001] {
+        let pay = TVal::Binary((0..n).map(|i| b'a' + (i % 23) as u8).collect());
+        bigs.push((format!("binary of {} bytes", n), pay.clone()));
+        bigs.push((format!("struct with a binary of {} bytes", n), TVal::Struct(vec![(1, TVal::I16(5)), (2, pay.clone()), (3, TVal::Binary(b"after".to_vec()))])));
+        bigs.push((format!("map<i32,binary> with a value of {} bytes", n), TVal::Map(TT::I32, TT::Binary, vec![(TVal::I32(1), pay), (TVal::I32(2), TVal::Binary(b"z".to_vec()))])));
+    }
     bigs
 }
 
